@@ -1,0 +1,56 @@
+// apparmor.d - Full set of apparmor profiles
+// SPDX-License-Identifier: GPL-2.0-only
+
+//go:build verif
+
+// Machine-checked contracts for package aa. This file is comment-only and is only
+// part of the package under the build tag "verif"; it is read by the verification
+// machinery, which generates proof obligations from the SSA of the functions named
+// here and discharges them with SMT solvers.
+package aa
+
+//@ func boolToInt
+//@   pure
+//@   ensures result == ite(b, 1, 0)
+
+//@ func compare
+//@   pure
+//@   case int:
+//@     lemma refl:    compare(x, x) == 0
+//@     lemma antisym: sign(compare(x, y)) == -sign(compare(y, x))
+//@     lemma trans:   imp(compare(x, y) <= 0 && compare(y, z) <= 0, compare(x, z) <= 0)
+//@     lemma ident:   imp(compare(x, y) == 0, x == y)
+//@   case bool:
+//@     lemma refl:    compare(x, x) == 0
+//@     lemma antisym: sign(compare(x, y)) == -sign(compare(y, x))
+//@     lemma trans:   imp(compare(x, y) <= 0 && compare(y, z) <= 0, compare(x, z) <= 0)
+//@     lemma ident:   imp(compare(x, y) == 0, x == y)
+//@   case string:
+//@     loop 1 invariant 0 <= i && i <= len(a) && i <= len(b)
+//@     loop 1 invariant forall(k, 0, i, a[k] == b[k])
+//@     loop 1 decreases len(a) - i
+//@     lemma refl:    compare(x, x) == 0
+//@     lemma antisym: sign(compare(x, y)) == -sign(compare(y, x))
+//@     lemma trans:   imp(compare(x, y) <= 0 && compare(y, z) <= 0, compare(x, z) <= 0)
+//@     lemma ident:   imp(compare(x, y) == 0, x == y)
+//@   case []string:
+//@     lemma refl:    compare(x, x) == 0
+//@     lemma antisym: sign(compare(x, y)) == -sign(compare(y, x))
+//@     lemma trans:   imp(compare(x, y) <= 0 && compare(y, z) <= 0, compare(x, z) <= 0)
+//@     lemma ident:   imp(compare(x, y) == 0, x == y)
+
+//@ func (Qualifier).Compare
+//@   pure
+//@   lemma refl:    Qualifier.Compare(x, x) == 0
+//@   lemma antisym: sign(Qualifier.Compare(x, y)) == -sign(Qualifier.Compare(y, x))
+//@   lemma trans:   imp(Qualifier.Compare(x, y) <= 0 && Qualifier.Compare(y, z) <= 0, Qualifier.Compare(x, z) <= 0)
+//@   lemma ident:   imp(Qualifier.Compare(x, y) == 0, x == y)
+
+//@ func (Qualifier).Equal
+//@   pure
+//@   ensures result == (r.Audit == o.Audit && r.AccessType == o.AccessType)
+
+//@ func (*Ptrace).Compare
+//@   requires typeIs(other, "*Ptrace")
+//@   assigns nothing
+//@   orderlaws
